@@ -9,6 +9,7 @@ import UvModel.StreamW
     envclear                                              drop the remaining scripted outcomes
     script <k> <op>...                                    ops of the k-th callback invocation
     w|wh|t|th <bufs>      uv_write / uv_write2 with handle / uv_try_write / uv_try_write2
+    wm|wmh <bufs>         uv_write / uv_write2 while the allocator refuses the next uv__malloc
     s | c | run | end     uv_shutdown / uv_close / uv_run(NOWAIT) / final peer report
     (in scripts: w:<bufs> wh:<bufs> t:<bufs> th:<bufs> s c)
     <bufs> = comma separated lengths, `LxK` = K buffers of length L
@@ -32,6 +33,8 @@ def parseBufs (w : String) : Option (List Nat) :=
 def parseOpWords : List String → Option Op
   | ["w", b] => (parseBufs b).map (Op.write · false)
   | ["wh", b] => (parseBufs b).map (Op.write · true)
+  | ["wm", b] => (parseBufs b).map (Op.writeNoMem · false)
+  | ["wmh", b] => (parseBufs b).map (Op.writeNoMem · true)
   | ["t", b] => (parseBufs b).map (Op.tryWrite · false)
   | ["th", b] => (parseBufs b).map (Op.tryWrite · true)
   | ["s"] => some .shutdown
